@@ -115,7 +115,10 @@ Record pspec := P { p_name : str; p_kind : N; p_before : list str; p_after : lis
 Definition mk_cb (i : N) (p : pspec) : cb :=
   Cb i (p_name p) (p_kind p) (p_before p) (p_after p) (p_cmds p).
 
-Record st := St { s_cbs : list cb; s_next : N }.
+(* s_unimp: plugin module names that loadPluginModule has popped from sys.modules (its
+   `except: sys.modules.pop(name, None); raise` cleanup after a failed import) and that no later
+   successful import has put back *)
+Record st := St { s_cbs : list cb; s_next : N; s_unimp : list str }.
 
 Definition oracle := list cb -> list cb.
 Inductive op :=
@@ -135,6 +138,15 @@ Definition find_spec (n : str) : option pspec :=
   find (fun p => seq_eqb (lower (p_name p)) (lower n)) world.
 
 Inductive imp_res := Mod (p : pspec) | ImpErr | OtherExc.
+
+(* sys.modules bookkeeping of loadPluginModule(n): a module found on disk is (re)entered on
+   success and popped when its import raises; an unknown name raises before any import *)
+Definition unimp_after (u : list str) (n : str) (imp : N) : list str :=
+  match find_spec n with
+  | None => u
+  | Some p => if N.eqb imp 0 then filter (fun x => negb (seq_eqb x (p_name p))) u
+              else p_name p :: u
+  end.
 Definition load_plugin_module (n : str) (imp : N) : imp_res :=
   match find_spec n with
   | None => ImpErr                              (* raise ImportError(name) *)
@@ -147,7 +159,7 @@ Definition load_plugin_class (s : st) (p : pspec) (initf : bool) (o : oracle) : 
   else
     let c := mk_cb (s_next s) p in
     let '(cbs', r) := add_callback o (s_cbs s) c in
-    (St cbs' (N.succ (s_next s)), r).
+    (St cbs' (N.succ (s_next s)) (s_unimp s), r).
 
 Definition is_owner (n : str) : bool := seq_eqb (lower n) (lower gen.T20.OWNER_NAME).
 
@@ -156,10 +168,11 @@ Definition owner_load (s : st) (n : str) (imp : N) (initf : bool) (o : oracle) :
   match get_callback (s_cbs s) n with
   | Some _ => (s, Ok 1)
   | None =>
+      let s1 := St (s_cbs s) (s_next s) (unimp_after (s_unimp s) n imp) in
       match load_plugin_module n imp with
-      | ImpErr => (s, Ok 1)
-      | OtherExc => (s, Raise OtherError)
-      | Mod p => let '(s', r) := load_plugin_class s p initf o in (s', do _ <- r; Ok 0)
+      | ImpErr => (s1, Ok 1)
+      | OtherExc => (s1, Raise OtherError)
+      | Mod p => let '(s', r) := load_plugin_class s1 p initf o in (s', do _ <- r; Ok 0)
       end
   end.
 
@@ -170,7 +183,7 @@ Definition owner_unload (s : st) (n : str) (dief : bool) : st * res N :=
     | None => (s, Ok 1)
     | Some old =>
         let '(bad, good) := remove_callback (s_cbs s) (cname old) in
-        let s' := St good (s_next s) in
+        let s' := St good (s_next s) (s_unimp s) in
         match bad with
         | [] => (s', Ok 1)
         | _ => if dief then (s', Raise OtherError) else (s', Ok 0)
@@ -191,17 +204,23 @@ Definition owner_reload (s : st) (n : str) (imp : N) (initf dief : bool) (o : or
   if is_owner n then (s, Ok 1)
   else
     let '(bad, good) := remove_callback (s_cbs s) n in
-    let s' := St good (s_next s) in
+    let s' := St good (s_next s) (s_unimp s) in
     match bad with
     | [] => (s', Ok 1)
-    | _ =>
+    | b0 :: _ =>
+        (* module = sys.modules[callbacks[0].__module__]  -- outside the try: KeyError when an
+           earlier failed import has popped the module; nothing restores `bad` *)
+        if existsb (seq_eqb (cname b0)) (s_unimp s) then (s', Raise KeyError)
+        else
+        let s1 := St good (s_next s) (unimp_after (s_unimp s) n imp) in
         match load_plugin_module n imp with
-        | OtherExc => (s', Raise OtherError)          (* not an ImportError: nothing restores `bad` *)
+        | OtherExc => (s1, Raise OtherError)          (* not an ImportError: nothing restores `bad` *)
         | ImpErr =>
-            let '(cbs', r) := readd o good bad in (St cbs' (s_next s), do _ <- r; Ok 1)
+            let '(cbs', r) := readd o good bad in
+            (St cbs' (s_next s) (unimp_after (s_unimp s) n imp), do _ <- r; Ok 1)
         | Mod p =>
-            if dief then (s', Raise OtherError)       (* callback.die() inside the try *)
-            else let '(s'', r) := load_plugin_class s' p initf o in (s'', do _ <- r; Ok 0)
+            if dief then (s1, Raise OtherError)       (* callback.die() inside the try *)
+            else let '(s'', r) := load_plugin_class s1 p initf o in (s'', do _ <- r; Ok 0)
         end
     end.
 
@@ -209,11 +228,13 @@ Definition step (s : st) (x : op) : st * res N :=
   match x with
   | Add p o =>
       let '(cbs', r) := add_callback o (s_cbs s) (mk_cb (s_next s) p) in
-      (St cbs' (N.succ (s_next s)), do _ <- r; Ok 0)
-  | Remove n => (St (snd (remove_callback (s_cbs s) n)) (s_next s), Ok 0)
+      (St cbs' (N.succ (s_next s)) (s_unimp s), do _ <- r; Ok 0)
+  | Remove n => (St (snd (remove_callback (s_cbs s) n)) (s_next s) (s_unimp s), Ok 0)
   | Boot n o =>
       match load_plugin_module n 0 with
-      | Mod p => let '(s', r) := load_plugin_class s p false o in (s', do _ <- r; Ok 0)
+      | Mod p =>
+          let s1 := St (s_cbs s) (s_next s) (unimp_after (s_unimp s) n 0) in
+          let '(s', r) := load_plugin_class s1 p false o in (s', do _ <- r; Ok 0)
       | _ => (s, Raise OtherError)
       end
   | Load n imp initf o => owner_load s n imp initf o
@@ -268,7 +289,7 @@ Definition gOp (v : value) : op :=
                 (orc_of (gLS (nth_v 4 a)))
   end.
 
-Definition st0 : st := St [] 0.
+Definition st0 : st := St [] 0 [].
 
 (* run: (op payload)
    op 0: (world ops) -> per operation ((0 reply)|(1 exn), names after it)
